@@ -565,7 +565,7 @@ func c02ReplyStream(p *Prog, r *Report) {
 		})
 		// the frame carries r.stream
 		okStream := false
-		for _, f := range withClosures(fn) {
+		for _, f := range withSenders(p, fn) {
 			eachInstr(f, func(in ssa.Instruction) {
 				switch x := in.(type) {
 				case *ssa.Store:
@@ -596,7 +596,7 @@ func c02ReplyStream(p *Prog, r *Report) {
 	for fn := range cr.send {
 		var sb []string
 		found := false
-		for _, f := range withClosures(fn) {
+		for _, f := range withSenders(p, fn) {
 			eachCall(f, func(c ssa.CallInstruction) {
 				if !callIsFunc(c, "frame", "NewFrame") {
 					return
